@@ -57,167 +57,26 @@ def kind_of(F, st, v):
     return n
 
 
+RID = {"protocol": "R-C11-RESET", "wb": "R-C11-WB", "reset": "R-C11-RESET", "result": "R-C11-NONE"}
+
+
 def check_read(ctx, F, A):
-    ip = A.ip
-    b = body_of(F, RD, "read")
-    saw = set()
-    for p in paths(A, F, b, opaque_components(F)):
-        st, tr = p["st"], p["trace"]
-        ev = {short(e["key"]): e for e in tr}
-        rb = ev.get("read_byte")
-        if rb is None:
-            continue
-        rbv, rbp = enum_variant(F, st, rb["ret"])
-        if rbv != "Err":
-            continue
-        seq = names(tr, ("_push_byte", "borrow_buf", "reset", "finalize", "push_byte"))
-        kd = ev.get("kind")
-        k = kind_of(F, st, kd["ret"]) if kd else None
-        if kd is not None and k is None and isinstance(kd["ret"], VEnum):
-            # the path does not pin the kind down to one variant: use the set of kinds it still allows
-            sg = kd["ret"].disc.single()
-            vals = st.values(sg[0]) if sg and sg[1] == 1 and kd["ret"].disc.c == 0 else None
-            if vals is not None:
-                names_ = {v["name"] for v in F.adts[ERRKIND]["variants"] if v["idx"] in vals}
-                if "WouldBlock" not in names_:
-                    kset = names_
-                    k = "|".join(sorted(names_))
-        var, pay = enum_variant(F, st, p["ret"])
-        ev2, ep = enum_variant(F, st, pay[0]) if var == "Err" else (None, ())
-        forwarded = ev2 == "IoErr" and len(ep) == 2 and ep[0] == rbp[0] and kd is not None and \
-            isinstance(kd["args"][0], VRef)
-        saw.update(k.split("|") if isinstance(k, str) else [k])
-        if k == "WouldBlock":
-            ctx.count("R-C11-WB")
-            ok = forwarded and not seq and isinstance(ep[1], VInt) and st.const_of(ep[1].lin) == 0
-            ctx.oblig(ok)
-            if not ok:
-                viol(ctx, "R-C11-WB", b, "wb", "would-block path: decoder calls %r, result %s%s -- the decoder must be left untouched, count 0, error forwarded"
-                     % (seq, ev2, (" count " + st.describe(ep[1].lin)) if len(ep) == 2 and isinstance(ep[1], VInt) else ""))
-        else:
-            ctx.count("R-C11-RESET")
-            rs = ev.get("reset")
-            ok = forwarded and seq == ["reset"] and rs is not None and ep[1] == rs["ret"]
-            ctx.oblig(ok)
-            if not ok:
-                viol(ctx, "R-C11-RESET", b, "reset|%s" % k, "source error of kind %s: decoder calls %r; reset must be called exactly once and its return value "
-                     "reported as the discarded-byte count, with the error forwarded" % (k, seq))
-    if saw != {"Eof", "WouldBlock", "Other"}:
-        viol(ctx, "R-C11-RESET", b, "coverage", "expected paths for the error kinds Eof, WouldBlock and Other, saw %r" % saw)
+    """read(): under the reader protocol monitor (readermon.py) a would-block source error leaves the decoder untouched and is
+    reported with count 0, every other source error resets the decoder exactly once and reports reset()'s value, the error value
+    itself is forwarded; decided on the calls the path makes after the failing read, wherever they are written."""
+    from . import readermon
+    readermon.check(ctx, F, A, "read", "R-C11-RESET", lambda kind: RID[kind])
 
 
 def check_next(ctx, F, A):
-    ip = A.ip
-    # next(): read() opaque
-    b = body_of(F, RD, "next")
-    n_none = n_some = 0
-    for p in paths(A, F, b, opaque_components(F, extra=("read", "read_nb"))):
-        st, tr = p["st"], p["trace"]
-        ev = {short(e["key"]): e for e in tr}
-        rd = ev.get("read")
-        if rd is None:
-            viol(ctx, "R-C11-NONE", b, "noread", "next() must call read() exactly once")
-            continue
-        var, pay = enum_variant(F, st, p["ret"])
-        rv, rp = enum_variant(F, st, rd["ret"])
-        ctx.count("R-C11-NONE")
-        if var == "None":
-            n_none += 1
-            ie = ev.get("is_eof")
-            ev2, ep = enum_variant(F, st, rp[0]) if rv == "Err" else (None, ())
-            ok = rv == "Err" and ev2 == "IoErr" and isinstance(ep[1], VInt) and st.const_of(ep[1].lin) == 0 and ie is not None and bool_is(st, ie["ret"], True)
-            msg = "None must be returned only for Err(IoErr(e, 0)) with e.is_eof()"
+    """next / read_nb / next_nb are specified against the result of the read they stand for (monitor state at return), whether
+    or not they are implemented on top of read()."""
+    from . import readermon
+    for fn in ("next", "read_nb", "next_nb"):
+        if any(b.get("name") == fn and (b.get("impl_self_ty") or {}).get("def") == RD for b in F.bodies.values()):
+            readermon.check(ctx, F, A, fn, "R-C11-NONE", lambda kind: RID[kind])
         else:
-            n_some += 1
-            ok = var == "Some" and find_same(pay[0], rd["ret"])
-            # and it must not be the EOF-with-nothing-pending case
-            if ok and rv == "Err":
-                ev2, ep = enum_variant(F, st, rp[0])
-                if ev2 == "IoErr":
-                    ie = ev.get("is_eof")
-                    zero = isinstance(ep[1], VInt) and st.const_of(ep[1].lin) == 0
-                    if zero and (ie is None or not bool_is(st, ie["ret"], False)):
-                        ok = False
-            msg = "everything except EOF-with-count-0 must be forwarded unchanged as Some(..)"
-        ctx.oblig(ok)
-        if not ok:
-            viol(ctx, "R-C11-NONE", b, "next|" + str(var), "DecoderReader::next: " + msg)
-    if not (n_none and n_some):
-        viol(ctx, "R-C11-NONE", b, "coverage", "next() must have None and Some outcomes")
-    # read_nb: maps IoErr(e,_) with would-block to nb::WouldBlock
-    b = body_of(F, RD, "read_nb")
-    clos = [c for c in F.bodies.values() if c.get("closure_of") == b["def"]]
-    saw = set()
-    for p in paths(A, F, b, opaque_components(F, extra=("read",))):
-        st, tr = p["st"], p["trace"]
-        rd = [e for e in tr if short(e["key"]) == "read"]
-        var, pay = enum_variant(F, st, p["ret"])
-        ctx.count("R-C11-NONE")
-        if not rd:
-            viol(ctx, "R-C11-NONE", b, "noread", "read_nb() must call read()")
-            continue
-        rv, rp = enum_variant(F, st, rd[0]["ret"])
-        wb = [e for e in trace_all(st) if short(e["key"]) == "is_would_block"]
-        if rv == "Ok":
-            ok = var == "Ok" and pay[0] == rp[0]
-            saw.add("ok")
-        else:
-            ev2, ep = enum_variant(F, st, rp[0])
-            nv, npay = enum_variant(F, st, pay[0]) if var == "Err" else (None, ())
-            if nv == "WouldBlock":
-                ok = ev2 == "IoErr" and wb and bool_is(st, wb[-1]["ret"], True)
-                saw.add("wb")
-            else:
-                ok = nv == "Other" and npay[0] == rp[0] and (ev2 != "IoErr" or (wb and bool_is(st, wb[-1]["ret"], False)))
-                saw.add("other")
-        ctx.oblig(ok)
-        if not ok:
-            viol(ctx, "R-C11-NONE", b, "read_nb|%s" % var, "read_nb: would-block source errors map to nb::Error::WouldBlock, every other result is forwarded unchanged")
-    if saw != {"ok", "wb", "other"}:
-        viol(ctx, "R-C11-NONE", b, "coverage", "read_nb outcomes seen: %r" % saw)
-    # next_nb: specified directly against read() (whether it goes through read_nb or not):
-    #   Ok(x) -> Ok(Some(x)); would-block source error -> Err(WouldBlock); EOF with count 0 -> Ok(None); anything else -> Err(Other(e))
-    b = body_of(F, RD, "next_nb")
-    saw = set()
-    for p in paths(A, F, b, opaque_components(F, extra=("read",))):
-        st, tr = p["st"], p["trace"]
-        rd = [e for e in tr if short(e["key"]) == "read" and "DecoderReader" in e["key"]]
-        var, pay = enum_variant(F, st, p["ret"])
-        ctx.count("R-C11-NONE")
-        if len(rd) != 1:
-            viol(ctx, "R-C11-NONE", b, "noread", "next_nb() must read from the decoder reader exactly once")
-            continue
-        rv, rp = enum_variant(F, st, rd[0]["ret"])
-        ev2, ep = enum_variant(F, st, rp[0]) if rv == "Err" else (None, ())
-        ie = [e for e in tr if short(e["key"]) == "is_eof"]
-        wb = [e for e in tr if short(e["key"]) == "is_would_block"]
-        wb_true = bool(wb) and bool_is(st, wb[-1]["ret"], True)
-        wb_false = bool(wb) and bool_is(st, wb[-1]["ret"], False)
-        eof_true = bool(ie) and bool_is(st, ie[-1]["ret"], True)
-        zero = ev2 == "IoErr" and isinstance(ep[1], VInt) and st.const_of(ep[1].lin) == 0
-        ok = False
-        if var == "Ok":
-            ov, op = enum_variant(F, st, pay[0])
-            if ov == "None":
-                ok = ev2 == "IoErr" and zero and eof_true and not wb_true
-                saw.add("none")
-            else:
-                ok = ov == "Some" and rv == "Ok" and same_result(st, op[0], rp[0])
-                saw.add("some")
-        elif var == "Err":
-            nv, npay = enum_variant(F, st, pay[0])
-            if nv == "WouldBlock":
-                ok = ev2 == "IoErr" and wb_true
-                saw.add("wb")
-            elif nv == "Other":
-                ok = rv == "Err" and same_result(st, npay[0], rp[0]) and (ev2 != "IoErr" or (wb_false and not (zero and eof_true)))
-                saw.add("err")
-        ctx.oblig(bool(ok))
-        if not ok:
-            viol(ctx, "R-C11-NONE", b, "next_nb|%s" % var, "next_nb: Ok(Some) for a transmission, Err(WouldBlock) for a would-block source error, Ok(None) only "
-                 "for EOF with count 0, every other error forwarded unchanged as Err(Other)")
-    if saw != {"none", "some", "wb", "err"}:
-        viol(ctx, "R-C11-NONE", b, "coverage", "next_nb outcomes seen: %r" % saw)
+            viol(ctx, "R-C11-NONE", body_of(F, RD, "read"), "missing|" + fn, "DecoderReader::%s not found" % fn)
 
 
 def same_result(st, a, b):
